@@ -13,6 +13,7 @@ Oracle : a model of the files, of the cache and (when a module directory is used
          acceptable outcome = a MUST verdict, several = EITHER (the model then adopts what it observed).
 """
 import os
+import shutil
 import time
 
 from vf import core
@@ -279,6 +280,8 @@ class World:
         d %= self.ndirs
         p = self.path(d, u)
         self.sim.set_unreadable(p, False)
+        if os.path.isfile(self.dirs[d]):  # the directory was replaced by a plain file (op_dirfile): put a directory back
+            os.remove(self.dirs[d])
         self.sim.write(p, text)
         for e in self.cache.values():
             if e.kind == "file" and e.origin == (d, u) and not e.dirty:
@@ -310,6 +313,25 @@ class World:
         del self.files[(d, u)]
         self.touch(d, u)
         self.last_uri = u
+
+    def op_dirfile(self, d):
+        """The whole lookup directory d is replaced by a plain file: every template in it is gone, and os.stat of a path below it
+        fails with NotADirectoryError instead of FileNotFoundError - a vanished source all the same."""
+        d %= self.ndirs
+        gone = sorted(k for k in self.files if k[0] == d)
+        if not gone or os.path.isfile(self.dirs[d]):
+            self.label("noop")
+            return
+        for k in gone:
+            self.sim.unreadable.discard(os.path.normpath(os.path.abspath(self.path(*k))))
+        shutil.rmtree(self.dirs[d])
+        with open(self.dirs[d], "w") as fh:
+            fh.write("not a directory")
+        for (dd, u) in gone:
+            del self.files[(dd, u)]
+            self.touch(dd, u)
+            self.last_uri = u
+        self.label("event:dir-replaced-by-file")
 
     def op_unreadable(self, d, u):
         d %= self.ndirs
@@ -871,6 +893,20 @@ def make_machine(base_cfg, ev, known, state):
         def delete(self, data):
             d, u = self.pick_file(data, lambda k, f: True)
             self.do("delete", d, u)
+
+        @precondition(lambda self: self.w is not None and self.cached_files())
+        @rule(data=st.data(), then=st.sampled_from(["get", "get", "get2", "has", ""]))
+        def dir_becomes_file(self, data, then):
+            """the directory of a cached template is replaced by a plain file (stat fails with ENOTDIR), then the URI is fetched again"""
+            u = data.draw(st.sampled_from(self.cached_files()), label="cached uri")
+            d = self.w.cache[u].origin[0]
+            self.do("dirfile", d)
+            if then in ("get", "get2"):
+                self.do("get", u)
+            if then == "get2":
+                self.do("get", u)
+            if then == "has":
+                self.do("has", u)
 
         @rule(data=st.data(), d=dirs, k=st.integers(0, BROKEN_KINDS - 1), mode=st.sampled_from(["known", "last", "any"]))
         def break_syntax(self, data, d, k, mode):
